@@ -16,7 +16,7 @@ def main(tier):
     rep.assume('integration accuracy: residual of the lattice equation <= 1e-6 (the tolerance of the repository\'s own Green-function tests); swap / group / scaling identities at relative 1e-9',
                ) if False else rep.assume('integration accuracy: residual of the lattice equation <= 1e-6 (the tolerance of the repository\'s own Green-function tests); swap / group / scaling identities at relative 1e-9')
     rep.gaps += ['catalogue crystals plus six purpose-built cases (diffusing species not first and permuted differently, every site its own network, mixed networks); default k-mesh (Nmax = 4)',
-                 'far field: 3D, one connected network, at kptgrid/4 cells along each lattice direction, within 15 % of the continuum pole (a bound on an asymptotic statement, not an identity)',
+                 'far field: 3D, one connected network, at kptgrid/4 cells along each lattice direction, within 1/n of the continuum pole at n cells, data sets with energy spread <= 1 kT (a bound on an asymptotic statement, not an identity)',
                  'endpoint pairs: all sites x neighbouring cells (-1..1), 10 (quick) / 40 (thorough) sampled per data set']
     return finish(rep, 'exploration',
                   'Postconditions of SetRates + __call__ against rates, escape rates and site probabilities computed independently from the thermodynamic data: the lattice diffusion equation (residual <= 1e-6), '
